@@ -2,6 +2,7 @@ package main
 
 import (
 	"fmt"
+	"os"
 	"sort"
 	"sync"
 
@@ -61,6 +62,12 @@ func reportFindings(res *vh.Result, caseIdx int, prop string, h *vh.History, fau
 	for _, f := range an.F {
 		if f.Prop != prop {
 			other++
+			if os.Getenv("VERIF_OTHER") != "" {
+				fmt.Fprintf(os.Stderr, "OTHER %s case=%d %s\n", f.Sig, caseIdx, f.Desc)
+				if os.Getenv("VERIF_OTHER_DUMP") != "" {
+					fmt.Fprintf(os.Stderr, "%s\n", vh.J(map[string]interface{}{"history": h, "trace": traceDigest(tr, f.Step)}))
+				}
+			}
 			continue
 		}
 		if seen[f.Sig] {
